@@ -248,7 +248,19 @@ def run_candset(seed, n):
             if side in ('r', 'both'):
                 R = keyed(R, names[3])
                 names = (names[0], names[1], names[3], names[3])
+        bigkeys = False
+        if rng.random() < 0.1 and len(L) and len(R) and L is not R \
+                and all(isinstance(k, (int, np.integer)) for k in L[names[0]].tolist() + R[names[2]].tolist()):
+            # integer keys that are NOT exactly representable as doubles, next to a float column in the
+            # candidate set: any pass through a single float array would silently change the keys
+            bigkeys = True
+            L = L.copy()
+            R = R.copy()
+            L[names[0]] = [2 ** 53 + 2 * int(k) + 1 for k in L[names[0]].tolist()]
+            R[names[2]] = [2 ** 53 + 2 * int(k) + 1 for k in R[names[2]].tolist()]
         cand, cl, cr = gen_candset(rng, L, R, names)
+        if bigkeys and 'extra' not in cand.columns:
+            cand['extra'] = [rng.random() for _ in range(len(cand))]
         r_ = rng.random()
         if len(cand) and r_ < 0.45:
             cand.index = rng.sample(range(5000), len(cand))
